@@ -4,7 +4,7 @@
    (rules::valid_tag, valid_entity, valid_boolean_property, valid_property) and the three flags;
    the encoding validators enc_valid / enc_vof (cppcms::encoding::valid / validate_or_filter) are
    universally quantified functions constrained only by the stated premises. *)
-From CppcmsV Require Import Base.Tac Base.Sweep C04.Defs C04.DefsX C04.DefsU C04.ProofsX C04.ProofsU C04.Proofs1 C04.Proofs2 C04.Proofs3 C04.Proofs4 C04.Proofs5 C04.Proofs6 C04.Proofs7 C04.Proofs8 C04.Proofs9 C04.Proofs10 C04.Proofs11 C04.Link Base.CSem gen.Gen_xss gen.Gen_xss2 gen.Gen_uri.
+From CppcmsV Require Import Base.Tac Base.Sweep C04.Defs C04.DefsX C04.DefsU C04.ProofsX C04.ProofsU C04.Proofs1 C04.Proofs2 C04.Proofs3 C04.Proofs4 C04.Proofs5 C04.Proofs6 C04.Proofs7 C04.Proofs8 C04.Proofs9 C04.Proofs10 C04.Proofs11 C04.Proofs12 C04.Link Base.CSem gen.Gen_xss gen.Gen_xss2 gen.Gen_uri gen.Gen_cstr.
 Local Open Scope N_scope.
 
 (* ---- 1. verdicts: both entry points agree, valid input is returned unchanged, validation implies
@@ -66,6 +66,19 @@ Theorem filter_shape :
                         whitelisted xhtml comments numeric tag_kind entity_ok bool_ok val_ok (e_text e)) es.
 Proof. exact vf_core_shape. Qed.
 Print Assumptions filter_shape.
+
+(* the two methods differ only in what they do with an invalid entry: remove_invalid deletes it,
+   escape_invalid replaces it by escape4 of its text; valid entries are copied *)
+Theorem remove_deletes_escape_rewrites :
+  forall xhtml comments numeric tag_kind entity_ok bool_ok val_ok y,
+  let es := fst (filter_entries xhtml comments numeric tag_kind entity_ok bool_ok val_ok y) in
+  concat (map e_text es) = y /\
+  snd (vf_core xhtml comments numeric tag_kind entity_ok bool_ok val_ok RemoveInvalid y)
+    = concat (map e_text (List.filter (fun e => negb (is_invalid e)) es)) /\
+  snd (vf_core xhtml comments numeric tag_kind entity_ok bool_ok val_ok EscapeInvalid y)
+    = concat (map (fun e => if is_invalid e then escape4 (e_text e) else e_text e) es).
+Proof. exact vf_core_remove. Qed.
+Print Assumptions remove_deletes_escape_rewrites.
 
 (* no_stray_markup: the result of filter(), in both modes, with or without an encoding, valid or not,
    is a concatenation of white-listed token texts and of text in which < and > do not occur and &
@@ -326,6 +339,11 @@ Print Assumptions src_uri_leafs.
 Theorem src_uri_subdelim_words : map (map Z.to_N) g_uri_subdelim_words = [amp_s; apos_s].
 Proof. exact link_uri_subdelim_words. Qed.
 Print Assumptions src_uri_subdelim_words.
+
+Theorem src_case_insensitive_compare : forall a b, a < 256 -> b < 256 ->
+  (g_cstr_ilt (sch a) (sch b) = false /\ g_cstr_ilt (sch b) (sch a) = false) <-> to_lower a = to_lower b.
+Proof. exact link_cstr_equiv. Qed.
+Print Assumptions src_case_insensitive_compare.
 
 (* ---- non-vacuity: a concrete rule set (xhtml; tag a: paired with attribute href checked by functor 0,
         tag br: stand alone; entity nbsp), functor 0 = "does not start with j" ---- *)
